@@ -26,11 +26,14 @@ pub struct WEnv {
     pub closed: Ghost<bool>,                   // event channel observed closed
     pub last_now: Ghost<nat>,                  // value returned by the latest Instant::now()
     pub mark: Ghost<int>,                      // recvd length when the current batch collection started
+    pub slack: Ghost<nat>,                     // time spent so far inside the filterer, in error-channel sends and in timers firing late
+    pub slack_mark: Ghost<nat>,                // value of `slack` when the current batch collection started (set like `mark`)
 }
 pub open spec fn same_but_time(a: &WEnv, b: &WEnv) -> bool {
     &&& b.now@ >= a.now@
     &&& b.recvd == a.recvd && b.verdicts == a.verdicts && b.filter_calls == a.filter_calls && b.errs == a.errs
     &&& b.throttle_const == a.throttle_const && b.last_now == a.last_now && b.mark == a.mark
+    &&& b.slack_mark == a.slack_mark && b.slack@ == a.slack@ + (b.now@ - a.now@)
 }
 pub open spec fn same_now(a: &WEnv, b: &WEnv) -> bool { same_but_time(a, b) && b.now == a.now && b.closed == a.closed }
 
@@ -45,6 +48,7 @@ impl Instant {
         ensures r.t == old(env).now@, final(env).last_now@ == old(env).now@, final(env).now == old(env).now, final(env).closed == old(env).closed,
             final(env).recvd == old(env).recvd && final(env).verdicts == old(env).verdicts && final(env).filter_calls == old(env).filter_calls && final(env).errs == old(env).errs
             && final(env).throttle_const == old(env).throttle_const && final(env).mark == old(env).mark,
+            final(env).slack == old(env).slack, final(env).slack_mark == old(env).slack_mark,
     { unimplemented!() }
     #[verifier::external_body]
     pub fn elapsed(&self, env: &mut WEnv) -> (r: Duration)
@@ -95,6 +99,7 @@ impl FiltererS {
         ensures
             final(env).now@ >= old(env).now@, final(env).recvd == old(env).recvd, final(env).errs == old(env).errs,
             final(env).throttle_const == old(env).throttle_const, final(env).closed == old(env).closed, final(env).last_now == old(env).last_now, final(env).mark == old(env).mark,
+            final(env).slack_mark == old(env).slack_mark, final(env).slack@ == old(env).slack@ + (final(env).now@ - old(env).now@),
             final(env).filter_calls@ == old(env).filter_calls@.push(old(env).recvd@.len() - 1),
             final(env).verdicts@ == old(env).verdicts@.insert(old(env).recvd@.len() - 1,
                 match r { Ok(true) => Verdict::Pass, Ok(false) => Verdict::Reject, Err(e) => Verdict::Fail { err: e.id } }),
@@ -118,6 +123,7 @@ impl ErrTx {
     #[verifier::external_body]
     pub fn send(&self, e: RuntimeError, env: &mut WEnv) -> (r: Result<(), SendErr>)
         ensures final(env).now@ >= old(env).now@, final(env).recvd == old(env).recvd, final(env).verdicts == old(env).verdicts,
+            final(env).slack_mark == old(env).slack_mark, final(env).slack@ == old(env).slack@ + (final(env).now@ - old(env).now@),
             final(env).filter_calls == old(env).filter_calls, final(env).throttle_const == old(env).throttle_const, final(env).closed == old(env).closed,
             final(env).last_now == old(env).last_now, final(env).mark == old(env).mark,
             r is Ok ==> final(env).errs@ == old(env).errs@.push(e.id),
@@ -136,6 +142,7 @@ impl ErrTx {
     #[verifier::external_body]
     pub fn try_send(&self, e: RuntimeError, env: &mut WEnv) -> (r: Result<(), TrySendError<RuntimeError>>)
         ensures final(env).now == old(env).now, final(env).recvd == old(env).recvd, final(env).verdicts == old(env).verdicts,
+            final(env).slack_mark == old(env).slack_mark, final(env).slack == old(env).slack,
             final(env).filter_calls == old(env).filter_calls, final(env).throttle_const == old(env).throttle_const, final(env).closed == old(env).closed,
             final(env).last_now == old(env).last_now, final(env).mark == old(env).mark,
             r is Ok ==> final(env).errs@ == old(env).errs@.push(e.id),
@@ -151,10 +158,13 @@ pub fn timeout_raw(maxtime: Duration, fut: RecvFut, env: &mut WEnv) -> (r: Resul
         final(env).errs == old(env).errs, final(env).throttle_const == old(env).throttle_const, final(env).last_now == old(env).last_now, final(env).mark == old(env).mark,
         match r {
             Ok(Ok((e, p))) => final(env).recvd@ == old(env).recvd@.push(Msg { ev: e, prio: p, t: final(env).now@ })
-                               && (!maxtime.inf ==> final(env).now@ <= old(env).now@ + maxtime.ns),
+                               && (!maxtime.inf ==> final(env).now@ <= old(env).now@ + maxtime.ns) && final(env).slack == old(env).slack,
             Ok(Err(_)) => final(env).recvd == old(env).recvd,
-            Err(_) => final(env).recvd == old(env).recvd && !maxtime.inf && final(env).now@ >= old(env).now@ + maxtime.ns,
-        }
+            // the timer fires no earlier than asked; how much later is counted as slack
+            Err(_) => final(env).recvd == old(env).recvd && !maxtime.inf && final(env).now@ >= old(env).now@ + maxtime.ns
+                      && final(env).slack@ == old(env).slack@ + (final(env).now@ - (old(env).now@ + maxtime.ns)),
+        },
+        final(env).slack_mark == old(env).slack_mark,
 { unimplemented!() }
 #[verifier::external_body]
 pub fn vx_unreachable<T>() -> T requires false { unimplemented!() }
